@@ -574,7 +574,9 @@ def main(argv):
         wall_s=round(wall, 2), violations=new_viol)
     os.makedirs(os.path.join(VERIF, "evidence"), exist_ok=True)
     if not a.replay:
-        json.dump(ev, open(os.path.join(VERIF, "evidence", prop + ".json"), "w"), indent=1, default=str)
+        # evidence/<id>.json describes runs against /repo only; a VERIF_REPO run leaves its record under build/
+        evp = os.path.join(VERIF, "evidence", prop + ".json") if not alt else os.path.join(VERIF, "build", "evidence-alt-%s.json" % prop)
+        json.dump(ev, open(evp, "w"), indent=1, default=str)
     if alt:
         shutil.rmtree(build, ignore_errors=True)
     shutil.rmtree(os.path.join(build, "runs", str(os.getpid())), ignore_errors=True)
